@@ -110,6 +110,8 @@ type Options struct {
 	GenesisTime time.Time
 	// NoInit: build the app but do not InitChain (used for restarts / imports).
 	NoInit bool
+	// InitialHeight of the chain (default 1): lets a short chain cross the byte-width boundaries of height-keyed queues.
+	InitialHeight int64
 	// InflationOff sets mint inflation to 0 so supplies of the bond denom only move by module action.
 	InflationOff bool
 }
@@ -363,7 +365,11 @@ func (r *Rig) InitDefault() {
 	if err != nil {
 		panic(err)
 	}
-	r.InitChainWith(stateBytes, 1, opts.GenesisTime)
+	ih := opts.InitialHeight
+	if ih < 1 {
+		ih = 1
+	}
+	r.InitChainWith(stateBytes, ih, opts.GenesisTime)
 	// InitChain state only becomes the committed state with the first block
 	if br := r.DeliverBlock(time.Second, nil); br.FinalErr != nil {
 		panic(fmt.Errorf("first block: %w", br.FinalErr))
